@@ -110,6 +110,39 @@ func (c *autoFragComp) Gen(r *vh.RNG, n int, emit func(op string, tags ...string
 	hunt := min(max(150000, 40*n), 2000000)
 	emit(fmt.Sprintf("pidhunt c %d %d", r.Intn(1<<30), hunt), "pid-hunt")
 	emit(fmt.Sprintf("pidhunt s %d %d", r.Intn(1<<30), hunt), "pid-hunt")
+	// sessions: ONE receiveLoop / ONE udpConn relaying 4..8 packets, most of them oversized with the same fragment count
+	for i := 0; i < max(40, n/16); i++ {
+		side := "c"
+		if r.Bool() {
+			side = "s"
+		}
+		alen := r.Pick([]int{1, 9, 14, 40})
+		hdr := fragHeaderLen(alen)
+		parts := r.Range(2, 6)
+		mps := r.Pick([]int{3, 10, 42, 200, 1000})
+		base := mps*(parts-1) + r.Range(1, mps)
+		limit := hdr + mps
+		failCall, tag := -1, "session"
+		if r.Chance(1, 7) {
+			failCall, tag = r.Range(0, 3*parts), "session+fail"
+		}
+		aseed := r.Intn(256)
+		var pk []string
+		for j, k := 0, r.Range(4, 8); j < k; j++ {
+			dl, al, as := base, alen, aseed
+			switch x := r.Intn(10); {
+			case x < 6: // same fragment count
+			case x < 8: // another fragment count
+				dl = mps*r.Range(1, 7) + r.Range(1, mps)
+			case x < 9: // fits whole
+				dl = r.Range(1, mps)
+			default: // another address of the same length
+				as = r.Intn(256)
+			}
+			pk = append(pk, fmt.Sprintf("%d:%d:%d:%d", al, as, dl, r.Intn(256)))
+		}
+		emit(fmt.Sprintf("session %s %d %d %d %s", side, r.Range(1, 6), limit, failCall, strings.Join(pk, "|")), tag, "side-"+side)
+	}
 	for i := 0; i < n; i++ {
 		side := "c"
 		if r.Bool() {
@@ -261,10 +294,314 @@ func (c *autoFragComp) pidHunt(f []string) vh.Result {
 	return vh.Result{Out: "ok", NonTrivial: draws > 0, Oracle: orc}
 }
 
+// ---------------------------------------------------------------- sessions
+
+type sessPkt struct {
+	addr, data []byte
+	tokens     []string
+	handed     []handedDgram
+	err        error
+	attempted  bool
+}
+
+// session runs several packets through ONE real receiveLoop (server) or ONE real udpConn (client)
+// over an honest transport (too-large iff longer than the limit; optional failure at one call).
+func (c *autoFragComp) session(f []string) vh.Result {
+	if len(f) != 6 || (f[1] != "c" && f[1] != "s") {
+		return vh.Result{Out: "bad-op"}
+	}
+	v, ok := atoiAll(f[2:5])
+	if !ok || v[0] < 1 || v[0] > 64 {
+		return vh.Result{Out: "bad-op"}
+	}
+	sid, limit, failCall := v[0], v[1], v[2]
+	isServer := f[1] == "s"
+	var pk []*sessPkt
+	var specs [][]int
+	for _, t := range strings.Split(f[5], "|") {
+		w, ok := atoiAll(strings.Split(t, ":"))
+		if !ok || len(w) != 4 || w[0] < 0 || w[2] < 0 {
+			return vh.Result{Out: "bad-op"}
+		}
+		if isServer && w[2] > 4096 {
+			w[2] = 4096
+		}
+		specs = append(specs, w)
+		pk = append(pk, &sessPkt{addr: fragPat(w[1], w[0]), data: fragPat(w[3], w[2])})
+	}
+	var orc []string
+	cur := -1
+	calls, failed, after := 0, false, 0
+	send := func(buf []byte, m *protocol.UDPMessage) error {
+		idx := calls
+		calls++
+		if cur < 0 || cur >= len(pk) {
+			orc = append(orc, "SendMessage outside any packet of the session")
+			return nil
+		}
+		p := pk[cur]
+		if len(buf) != protocol.MaxUDPSize {
+			orc = append(orc, fmt.Sprintf("SendMessage was given a %d-byte buffer, not MaxUDPSize", len(buf)))
+		}
+		if failed && isServer {
+			after++
+		}
+		n := m.Serialize(buf)
+		if n < 0 {
+			p.tokens = append(p.tokens, "O")
+			return nil
+		}
+		dg := append([]byte{}, buf[:n]...)
+		switch {
+		case idx == failCall:
+			p.tokens = append(p.tokens, "F")
+			p.handed = append(p.handed, handedDgram{dg, "F"})
+			failed = true
+			return errVerifSendFail
+		case n > limit:
+			tok := fmt.Sprintf("T%d", limit)
+			p.tokens = append(p.tokens, tok)
+			p.handed = append(p.handed, handedDgram{dg, tok})
+			return &quic.DatagramTooLargeError{MaxDatagramPayloadSize: int64(limit)}
+		}
+		p.tokens = append(p.tokens, "O")
+		p.handed = append(p.handed, handedDgram{dg, "O"})
+		return nil
+	}
+	_, pmsg := vh.GuardMsg(func() string {
+		if isServer {
+			pkts, addrs := make([][]byte, len(pk)), make([]string, len(pk))
+			for i, p := range pk {
+				pkts[i], addrs[i] = append([]byte{}, p.data...), string(p.addr)
+			}
+			err := server.VerifC05ReceiveLoopHook(uint32(sid), pkts, addrs, send, func(more bool) {
+				cur++
+				if more && cur < len(pk) {
+					pk[cur].attempted = true
+				}
+			})
+			if err != server.VerifC05SocketDone && cur >= 0 && cur < len(pk) {
+				pk[cur].err = err // the loop ended while relaying packet `cur`
+			}
+		} else {
+			saved := c.cur
+			newUDP, stop := client.VerifC05Sessions(send)
+			var conn client.HyUDPConn
+			for i := 0; i < sid; i++ { // session ids count from 1
+				conn, _, _ = newUDP()
+			}
+			for i, p := range pk {
+				cur = i
+				p.attempted = true
+				p.err = conn.Send(append([]byte{}, p.data...), string(p.addr))
+			}
+			stop()
+			c.cur = saved
+		}
+		return ""
+	})
+	if pmsg != "" {
+		return vh.Result{Out: "panic", NonTrivial: true, Oracle: []string{"the send path panicked: " + pmsg}}
+	}
+	if after > 0 {
+		orc = append(orc, fmt.Sprintf("%d SendMessage call(s) after the session's send had failed", after))
+	}
+
+	// ---------------- per packet: outcome, model op, model-free oracles
+	type sentMsg struct {
+		addr string
+		data []byte
+	}
+	var outs, mops []string
+	var allLeft [][]*protocol.UDPMessage // per packet: the parsed datagrams that left
+	var complete []bool
+	var fragIDs []uint16 // packet id of every packet that was fragmented (≥ 2 fragments handed over)
+	for i, p := range pk {
+		if !p.attempted {
+			break
+		}
+		errStr := "none"
+		var tl *quic.DatagramTooLargeError
+		switch {
+		case p.err == nil:
+		case errors.As(p.err, &tl):
+			errStr = fmt.Sprintf("toolarge:%d", tl.MaxDatagramPayloadSize)
+		case errors.Is(p.err, errVerifSendFail):
+			errStr = "other"
+		default:
+			errStr = "unexpected"
+			orc = append(orc, fmt.Sprintf("packet %d: the send path returned an error the transport never produced: %v", i, p.err))
+		}
+		H := p.handed
+		want := protocol.UDPMessage{SessionID: uint32(sid), PacketID: 0, FragID: 0, FragCount: 1, Addr: string(p.addr), Data: p.data}
+		if len(H) > 0 {
+			whole, _ := fragSerialize(&want)
+			if !bytes.Equal(H[0].b, whole) {
+				orc = append(orc, fmt.Sprintf("packet %d of the session: the first datagram is not the whole message with packet id 0, FragID 0, FragCount 1", i))
+			}
+		}
+		var left []*protocol.UDPMessage
+		var pid uint16
+		for j := 1; j < len(H); j++ {
+			if len(H[j].b) > limit {
+				orc = append(orc, fmt.Sprintf("packet %d: datagram %d is %d bytes, the transport reported a limit of %d", i, j, len(H[j].b), limit))
+			}
+			fm, perr := protocol.ParseUDPMessage(vh.Exact(H[j].b))
+			if perr != nil {
+				orc = append(orc, fmt.Sprintf("packet %d: datagram %d does not parse", i, j))
+				continue
+			}
+			if j == 1 {
+				pid = fm.PacketID
+			}
+			if fm.PacketID == 0 || fm.PacketID != pid || int(fm.FragID) != j-1 {
+				orc = append(orc, fmt.Sprintf("packet %d: datagram %d carries packet id %d (first fragment %d), FragID %d", i, j, fm.PacketID, pid, fm.FragID))
+			}
+			if H[j].resp == "O" {
+				left = append(left, fm)
+			}
+		}
+		if len(H) > 2 {
+			fragIDs = append(fragIDs, pid)
+		}
+		done := false
+		if len(H) == 1 && H[0].resp == "O" {
+			if m0, perr := protocol.ParseUDPMessage(vh.Exact(H[0].b)); perr == nil {
+				left, done = []*protocol.UDPMessage{m0}, true
+			}
+		} else if p.err == nil && len(left) > 0 && len(left) == int(left[0].FragCount) {
+			done = true
+		}
+		allLeft = append(allLeft, left)
+		complete = append(complete, done)
+		draw := 0
+		if len(H) > 1 && len(H[1].b) >= 6 {
+			draw = (int(binary.BigEndian.Uint16(H[1].b[4:])) + 65535) % 65536
+		}
+		var sb strings.Builder
+		fmt.Fprintf(&sb, "err=%s n=%d", errStr, len(H))
+		for _, h := range H {
+			fmt.Fprintf(&sb, " %d:%d:%s", len(h.b), fragDigest(h.b), h.resp)
+		}
+		outs = append(outs, sb.String())
+		toks := "-"
+		if len(p.tokens) > 0 {
+			toks = strings.Join(p.tokens, ",")
+		}
+		mops = append(mops, fmt.Sprintf("%d:%d:%d:%d:%d:%s", specs[i][0], specs[i][1], specs[i][2], specs[i][3], draw, toks))
+	}
+
+	// (ii) ids: k >= 4 fragmented packets of one session never all carry the same id
+	// (a false alarm needs k-1 independent collisions at 1/65535 each)
+	if len(fragIDs) >= 4 {
+		same := true
+		for _, x := range fragIDs {
+			same = same && x == fragIDs[0]
+		}
+		if same {
+			orc = append(orc, fmt.Sprintf("all %d fragmented packets of the session carry the same packet id %d", len(fragIDs), fragIDs[0]))
+		}
+	}
+
+	// (i) the receiver: ParseUDPMessage (done above) + ONE Defragger for the session
+	isSent := func(o *protocol.UDPMessage) bool {
+		for i, p := range pk {
+			if i < len(allLeft) && o.SessionID == uint32(sid) && o.Addr == string(p.addr) && bytes.Equal(o.Data, p.data) {
+				return true
+			}
+		}
+		return false
+	}
+	feedSeq := func(seq []*protocol.UDPMessage) []*protocol.UDPMessage {
+		d := &frag.Defragger{}
+		var got []*protocol.UDPMessage
+		for _, fm := range seq {
+			mm := *fm
+			if o := d.Feed(&mm); o != nil {
+				got = append(got, o)
+			}
+		}
+		return got
+	}
+	{
+		// in order, nothing lost: exactly the completely sent packets, in order
+		var seq []*protocol.UDPMessage
+		var wantData [][]byte
+		for i, l := range allLeft {
+			seq = append(seq, l...)
+			if complete[i] {
+				wantData = append(wantData, pk[i].data)
+			}
+		}
+		got := feedSeq(seq)
+		okAll := len(got) == len(wantData)
+		for i := 0; okAll && i < len(got); i++ {
+			okAll = bytes.Equal(got[i].Data, wantData[i])
+		}
+		if !okAll {
+			orc = append(orc, fmt.Sprintf("receiver, no loss, in order: %d message(s) came out of the %d packets that left completely (or not the same payloads)", len(got), len(wantData)))
+		}
+		// adversarial loss: for adjacent fragmented packets A, B drop the tail of A and the head of B
+		for i := 0; i+1 < len(allLeft); i++ {
+			a, b := allLeft[i], allLeft[i+1]
+			if len(a) < 2 || len(b) < 2 {
+				continue
+			}
+			for cut := 1; cut < len(a) && cut < len(b); cut++ {
+				s2 := append(append([]*protocol.UDPMessage{}, a[:cut]...), b[cut:]...)
+				for _, o := range feedSeq(s2) {
+					if !isSent(o) {
+						orc = append(orc, fmt.Sprintf("receiver: with packets %d and %d of the session cut at fragment %d (tail of the first and head of the second lost) a payload was emitted that was never sent as one message (%d bytes)", i, i+1, cut, len(o.Data)))
+					}
+				}
+			}
+		}
+		// pseudo-random subsets, orders and duplicates of everything that left
+		hh := fnv.New64a()
+		hh.Write([]byte(strings.Join(f, " ")))
+		pr := vh.NewRNG(hh.Sum64())
+		for round := 0; round < 6 && len(seq) > 0; round++ {
+			var s3 []*protocol.UDPMessage
+			for _, x := range seq {
+				if pr.Chance(1, 5) {
+					continue
+				}
+				s3 = append(s3, x)
+				if pr.Chance(1, 6) {
+					s3 = append(s3, x)
+				}
+			}
+			for a := 0; a+1 < len(s3); a++ {
+				if pr.Chance(1, 2) {
+					b := pr.Range(a, min(a+3, len(s3)-1))
+					s3[a], s3[b] = s3[b], s3[a]
+				}
+			}
+			for _, o := range feedSeq(s3) {
+				if !isSent(o) {
+					orc = append(orc, fmt.Sprintf("receiver: under loss/reordering/duplication of the session's datagrams a payload was emitted that was never sent as one message (%d bytes)", len(o.Data)))
+				}
+			}
+		}
+	}
+	if len(outs) == 0 {
+		return vh.Result{Out: "bad-op"}
+	}
+	if len(orc) > 8 {
+		orc = orc[:8]
+	}
+	return vh.Result{Out: strings.Join(outs, " | "),
+		ModelOp:    fmt.Sprintf("session %s %d %s", f[1], sid, strings.Join(mops, "|")),
+		NonTrivial: len(fragIDs) >= 2, Oracle: orc}
+}
+
 func (c *autoFragComp) Run(op string) vh.Result {
 	f := strings.Fields(op)
 	if len(f) == 4 && f[0] == "pidhunt" {
 		return c.pidHunt(f)
+	}
+	if len(f) > 0 && f[0] == "session" {
+		return c.session(f)
 	}
 	if len(f) != 11 || f[0] != "autofrag" || (f[1] != "c" && f[1] != "s") || (f[8] != "h" && f[8] != "a") {
 		return vh.Result{Out: "bad-op"}
